@@ -38,6 +38,11 @@ CLAIMS = {
             "`rendering != raw` edge, and that unicode mode keeps a char only on the !is_other edge.",
             "Not decided: that unicode_categories::is_other is the right notion of printable; multi-character interplay beyond adjacent pairs is "
             "argued from the pair-wise left-to-right structure of both decoders, not enumerated.", "§4 C11"),
+    "C13": ("Decides that the user's shell expression is the last template substitution (never rescanned) and is pushed unmodified into the Cram "
+            "script, that the random divider salt reaches the divider reader and gates divider recognition (bounded inter-procedural flow), that "
+            "every cycle of the resolved call graph is in the confirmed recursion table, the guard tables of render_output / Redirection::Merge, "
+            "that stdin and the captured streams flow unmodified (same stream to same field), and that per-test Cram exit codes come from the divider.",
+            "Not decided: pipe semantics, write order of merged streams, behaviour of subprocess under large simultaneous writes, strip-ansi-escapes.", "§4 C13"),
 }
 
 PENDING = "static rules for this property are designed (DESIGN.md §4) but not yet implemented in this revision"
